@@ -305,7 +305,13 @@ def run(ctx):
                 v3.types[v3.query].fields.append(S.SField("vfAdded", S.named("VfAdded")))
                 parts = ["type VfAdded {\n  added_leaf: Int\n}\n", "extend type VfAdded {\n  added_extra: String\n}\n",
                          "extend type %s {\n  vfAdded: VfAdded\n}\n" % v3.query]
+                enums = [t for t in v3.types.values() if t.kind == "enum"]
+                if enums:
+                    e3 = rng.choice(enums)
+                    e3.values.append(S.SEnumValue("VF_ADDED"))
+                    parts.append("extend enum %s {\n  VF_ADDED\n}\n" % e3.name)
                 rng.shuffle(parts)
+                before = canon.canon_schema(schema)
                 ext_text = "\n".join(parts)
                 w3 = dict(witness, extension_document=ext_text)
                 ctx.evaluated()
@@ -318,6 +324,19 @@ def run(ctx):
                     d3 = canon.diff(canon.canon_schema(extended), canon.canon_ir(v3))
                     if d3:
                         ctx.violation("second-document:content:%s" % canon.diff_key(d3), w3, "at %s built=%s declared=%s" % d3)
+                    # the schema that was extended is an input: it still is what the first document declared,
+                    # and extending it once more gives the same result
+                    d4 = canon.diff(canon.canon_schema(schema), before)
+                    if d4:
+                        ctx.violation("second-document:extended-schema-was-modified:%s" % canon.diff_key(d4), w3,
+                                      "at %s now=%s before=%s" % d4)
+                    else:
+                        try:
+                            again = py_gql.sdl.extend_schema(schema, ext_text)
+                            if canon.diff(canon.canon_schema(again), canon.canon_schema(extended)):
+                                ctx.violation("second-document:second-application-differs", w3, "")
+                        except Exception as e:
+                            ctx.violation("second-document:second-application-raises:%s" % type(e).__name__, w3, repr(e)[:300])
             # ignore_extensions: equals building the document without its extension blocks
             if info["extensions"] and rng.random() < 0.5 and not hostile and not early_default:
                 blocks = [b for b in text.split("\n\n") if not b.lstrip().startswith("extend ")]
